@@ -723,12 +723,12 @@ BUNDLES = ["CFB", "CTR", "ECB", "CBC", "BDE", "MAC", "Hash", "HMAC", "bashHash",
 
 
 def jobs(tier, scale=1.0):
-    n = 6000 if tier == "quick" else 60000
+    n = 6000 if tier == "quick" else 480000
     n = max(50, int(n * scale))
     js = []
     for b in BUNDLES:
         k = n // 4 if b in ("HOTP", "TOTP", "OCRA", "SDE", "KRP", "DWP", "CHE", "FMT") else n
-        reps = 1 if tier == "quick" else 3
+        reps = 1 if tier == "quick" else 8
         for c in range(reps):
             js.append({"unit": "c10:unit_scripts", "params": {"bundle": b, "n": k // reps, "chunk": c,
                                                               "exhaustive": 1 if (c == 0 and scale >= 1) else 0}})
